@@ -47,6 +47,11 @@ func genSchedule(r *rand.Rand, pl *plan.Plan, maxPre int, stepsHint int) {
 func genC08(seed uint64, tier string) *plan.Plan {
 	r := rand.New(rand.NewPCG(seed, 0xc08))
 	pl := &plan.Plan{Cfg: map[string]int64{}}
+	if r.IntN(12) == 0 {
+		initC09Index()
+		genTwoExporters(r, pl)
+		return pl
+	}
 	udp := r.IntN(2) == 1
 	if udp {
 		pl.Cfg["proto"] = 1
@@ -147,6 +152,13 @@ func genC08(seed uint64, tier string) *plan.Plan {
 }
 
 func runC08(pl *plan.Plan, out *plan.Outcome) {
+	if cfgOr(pl, "two", 0) == 1 {
+		runTwoExporters(pl, out, func(s *expSession) {
+			s.checkBookkeeping()
+			s.seqCheck()
+		})
+		return
+	}
 	env := newEnv(pl, out, keepLogFlag)
 	var sess *expSession
 	env.Go("app", func() {
